@@ -128,3 +128,26 @@ Fixpoint split_frames (fuel : nat) (ebs : N) (bs : bytes) : list bytes :=
     end
   end.
 
+(* ---------- the overall limit ----------
+   The limit in force after SetLimits(e) is max_message_payload e whatever was configured before.
+   A header announcing more than that must be refused on the header alone (nothing read, nothing
+   allocated); a string count above it inside a reject payload (the one kind whose type limit IS the
+   overall limit) must be refused before the string is allocated. *)
+Definition header_oversize (ebs : N) (bs : bytes) : bool :=
+  (24 <=? len bs) && (max_message_payload ebs <? hdr_len bs).
+
+Definition varstring_count_over (mmp : N) (bs : bytes) : bool :=
+  match dec_varint bs with Ok (c, _) => mmp <? c | Err _ => false end.
+
+Definition string_over_limit (k : kind) (pver mmp : N) (payload : bytes) : bool :=
+  match k with
+  | KReject =>
+    (RejectVersion <=? pver) &&
+    (varstring_count_over mmp payload ||
+     match dec_varstring mmp payload with
+     | Ok (_, r) => match read_le 1 r with Ok (_, r') => varstring_count_over mmp r' | Err _ => false end
+     | Err _ => false
+     end)
+  | _ => false
+  end.
+
